@@ -90,6 +90,27 @@ func unusedImport() []*descriptorpb.FileDescriptorProto {
 	return []*descriptorpb.FileDescriptorProto{an.P, lib.P, app.P}
 }
 
+// layouts: one Go package built from two proto packages (api.proto imports types.proto, after a foreign import),
+// a third file of the second proto package importing the first. Subsets of file_to_generate decide what is co-generated.
+func layouts() []*descriptorpb.FileDescriptorProto {
+	goPkg := schema.GenRoot + "lay/acme"
+	ty := schema.NewFile("lay/types.proto", "acme.types", goPkg)
+	kind := ty.Enum("Kind", "KIND_ZERO", 0, "KIND_B", 2, "KIND_A", 1, "KIND_NEG", -1)
+	tm := ty.Msg("T")
+	tm.Field("v", 1, schema.S(schema.Int32))
+	api := schema.NewFile("lay/api.proto", "acme.api", goPkg, "google/protobuf/timestamp.proto", "lay/types.proto")
+	am := api.Msg("Api")
+	am.Field("t", 1, schema.M(tm.Full()))
+	am.Field("k", 2, schema.E(kind))
+	am.Field("ts", 3, schema.M(".google.protobuf.Timestamp"))
+	am.Map("by", 4, schema.String, schema.M(tm.Full()))
+	more := schema.NewFile("lay/more.proto", "acme.api", goPkg, "lay/api.proto")
+	mm := more.Msg("More")
+	mm.Field("a", 1, schema.M(am.Full()))
+	mm.Rep("ks", 2, schema.M(am.Full()))
+	return []*descriptorpb.FileDescriptorProto{ty.P, api.P, more.P}
+}
+
 func testpbFiles() []*descriptorpb.FileDescriptorProto {
 	var out []*descriptorpb.FileDescriptorProto
 	for _, n := range []string{"1.proto", "2.proto", "3.proto"} {
@@ -263,6 +284,7 @@ func runC13(h *hz.H) {
 		{"testpb", testpbFiles(), "paths=source_relative"},
 		{"many", manyMessages(), ""},
 		{"unused-import", unusedImport(), ""},
+		{"layouts", layouts(), ""},
 	}
 	if h.Thorough() || h.Replay != "" {
 		sets = append(sets, reqSet{"mx-fast-only", schema.MX(), "features=fast"})
